@@ -69,6 +69,7 @@ class Trace(object):
         self.decisions = []      # (text, outcome)
         self.signs = {}          # canonical key -> frozenset of possible signs {'-','0','+'}
         self.sign_exprs = {}     # canonical key -> the (sign-normalised) Rat it stands for
+        self.subst = {}          # atom id -> Rat, from the equalities decided true on this path
         self.new_forks = []      # indices in decisions that were defaulted (not scripted)
         self.labels = {}         # opaque label key -> bool
 
@@ -93,7 +94,72 @@ class Trace(object):
             return False
         out = self._choose(text)
         self.signs[key] = acc if out else rej
+        if self.signs[key] == frozenset('0') and not key.startswith('close:'):
+            self._learn_zero(key)
         return out
+
+    # ---- linear equality reasoning: facts `expr == 0` become a substitution applied to later (and earlier) tests
+    def reduce(self, d):
+        if self.subst and d.is_poly():
+            if any(a in self.subst for a in d.num.atoms()):
+                return d.subst(self.subst)
+        return d
+
+    def _learn_zero(self, key):
+        expr = self.sign_exprs.get(key)
+        if expr is None or not expr.is_poly():
+            return
+        from .poly import atom_of, Poly, Rat as _Rat
+        for part in (expr.real(), expr.imag()):
+            part = self.reduce(part)
+            if part.is_zero() or not part.is_poly():
+                continue
+            p = part.num
+            pick = None
+            for m, c in sorted(p.t.items()):
+                if len(m) == 1 and m[0][1] == 1 and atom_of(m[0][0]).fn is None and \
+                        sum(1 for mm in p.t if any(a == m[0][0] for a, _ in mm)) == 1:
+                    pick = (m[0][0], c)
+            if pick is None:
+                continue
+            a, c = pick
+            rest = p - Poly({((a, 1),): c})
+            val = _Rat(-rest) / _Rat(Poly.const(c))
+            self.subst = {k2: v.subst({a: val}) for k2, v in self.subst.items()}
+            self.subst[a] = val
+        # re-key what is already known under the new substitution; contradictory knowledge makes the path infeasible
+        if not self.subst:
+            return
+        for k in list(self.signs):
+            if k.startswith('close:') or k not in self.sign_exprs:
+                continue
+            e = self.sign_exprs[k]
+            e2 = self.reduce(e)
+            if e2 is e:
+                continue
+            sg = self.signs[k]
+            if e2.is_zero():
+                if '0' not in sg:
+                    raise Infeasible()
+                continue
+            if e2.is_const():
+                c = e2.const_value()
+                real = c[1] == 0
+                s = ('+' if c[0] > 0 else '-') if real else None
+                if (s is not None and s not in sg) or (s is None and sg == frozenset('0')):
+                    raise Infeasible()
+                continue
+            sgn, k2, _ = _canon_diff(e2)
+            if sgn < 0:
+                sg = frozenset({'-': '+', '+': '-', '0': '0'}[x] for x in sg)
+            if k2 in self.signs:
+                both = self.signs[k2] & sg
+                if not both:
+                    raise Infeasible()
+                self.signs[k2] = both
+            else:
+                self.signs[k2] = sg
+                self.sign_exprs[k2] = e2 if sgn > 0 else -e2
 
     def decide_label(self, key, text=None):
         if key in self.labels:
@@ -101,6 +167,10 @@ class Trace(object):
         out = self._choose(text or key)
         self.labels[key] = out
         return out
+
+
+class Infeasible(Exception):
+    """the decisions taken on this path contradict each other: the path is dropped"""
 
 
 class PathResult(object):
@@ -122,12 +192,16 @@ def explore(model, thunk, opts=None, max_paths=MAX_PATHS):
         script = stack.pop()
         tr = Trace(script)
         it = Interp(model, tr, opts or {})
+        res = None
         try:
             v = thunk(it)
             res = PathResult(tr.decisions, value=v, interp=it)
         except PyRaise as e:
             res = PathResult(tr.decisions, raised=e, interp=it)
-        results.append(res)
+        except Infeasible:
+            pass
+        if res is not None:
+            results.append(res)
         for idx in tr.new_forks:
             alt = [o for _, o in tr.decisions[:idx]] + [False]
             stack.append(alt)
@@ -166,6 +240,7 @@ class Interp(object):
                 if sgn < 0:
                     signs = ''.join({'-': '+', '+': '-', '0': '0'}[c] for c in signs)
                 trace.signs[key] = frozenset(signs)
+                trace.sign_exprs[key] = expr if sgn > 0 else -expr
 
     # ------------------------------------------------------------------ helpers
     def fresh(self, hint):
@@ -224,6 +299,7 @@ class Interp(object):
 
     def compare_zero(self, d, op):
         """d: Rat; op in eq ne lt le gt ge (d OP 0).  returns bool or _SignTest"""
+        d = self.trace.reduce(d)
         if d.is_zero():
             return op in ('eq', 'le', 'ge')
         if d.is_const():
